@@ -1,7 +1,7 @@
 (* C15 proofs, part c: the base call is the arg-max of the exact likelihoods. *)
 From Coq Require Import ZArith List Bool Lia QArith Permutation.
 Import ListNotations.
-From SCMO Require Import Lib.Val Lib.PyInt Model.C15.
+From SCMO Require Import Lib.Val Lib.PyInt Model.C15 Proofs.C15_g.
 Open Scope Q_scope.
 
 Lemma bool_iff (b1 b2 : bool) : (b1 = true <-> b2 = true) -> b1 = b2.
@@ -264,7 +264,7 @@ Section Range.
     snd (call pc os) == snd (call_of (likelihoods pc os)) / qsum (map snd (likelihoods pc os)).
   Proof.
     pose proof (total_pos os) as Ht.
-    unfold call, base_probs, call_of.
+    unfold call. rewrite decide_spec. unfold base_probs, call_of.
     change (fun kv : Z * Q => (fst kv, snd kv / qsum (map snd (likelihoods pc os))))
       with (sc (qsum (map snd (likelihoods pc os)))).
     rewrite (most_common_sc _ Ht).
@@ -278,7 +278,7 @@ Section Range.
 
   Lemma call_fast_correct os : fst (call_fast pc os) = fst (call pc os).
   Proof.
-    destruct (call_is_call_of os) as [H _]. rewrite H. unfold call_fast, call_of.
+    destruct (call_is_call_of os) as [H _]. rewrite H, call_fast_spec. unfold call_of.
     destruct (most_common (likelihoods pc os)) as [|[b p] [|[b2 p2] rest]]; [reflexivity|reflexivity|].
     destruct (Qeq_bool p p2); reflexivity.
   Qed.
